@@ -1,7 +1,9 @@
 """C03 - swarm membership and counts follow the announce history."""
 from hist_common import HIST_REASONS, HIST_TAGS, HIST_ASSUMPTIONS, HIST_RULE
 
+from e2e_common import e2e_part
 PROP = {
+    "parts": [e2e_part("chkE03", 40, 800)],
     "glue": "GH", "chk": "chk03", "explain": "explainH",
     "gotags": ["shim_memory", "shim_redis", "shim_timecache"],
     "n": {"quick": 120, "thorough": 3000},
